@@ -23,13 +23,19 @@ type Item struct {
 // AllOptions enables every feature family of the enumerator.
 var AllOptions = cyq.Options{Parameters: true, ShortestPaths: true, Updating: true}
 
-// Items returns the enumeration with at most k features (all families) followed by every corpus query.
+// Items returns the enumeration with at most k features (all families), the cross-clause data-flow family and every
+// corpus query.
 func Items(k int) []Item {
 	var out []Item
 	opt := AllOptions
 	opt.SkipParseCheck = true // every consumer parses each text through ParseItem
 	for _, q := range cyq.EnumerateWith(k, opt) {
 		out = append(out, Item{Text: q.Text, Source: "enum", Features: q.Features})
+	}
+	// cross-clause data flow: texts the parser rejects are dropped by Dataflow itself, so they carry their own source
+	dopt := AllOptions
+	for _, q := range cyq.Dataflow(dopt) {
+		out = append(out, Item{Text: q.Text, Source: "dataflow", Features: q.Features})
 	}
 	for _, c := range cyq.Corpus() {
 		out = append(out, Item{Text: c.Text, Params: c.Params, Source: c.Source})
